@@ -405,4 +405,29 @@ Section Solver.
     | None => None
     | Some sts => Some (finalize cf st0 sts (state_at_t1 cf (last sts st0)), sts)
     end.
+
+  (* solver.init with constraint_init = the solver's own ODE constraint: the
+     initial marginal is conditioned on the linearised constraint at t0 (zero
+     data); u and the posterior marginal are BOTH the updated marginal; scales,
+     counters as in solver_init, except that solver_mle counts this update as datum 1.  (The implementation uses the SVD least squares
+     here; with an invertible innovation matrix it coincides with bayes_rule.) *)
+  Definition solver_init_constrained (cf : config) (t0 : F) (u0 : fnormal) : option sstate :=
+    let s := cf_shape cf in
+    let fx := linearize s (cf_ode cf) (cf_lin cf) (cf_damp2 cf) u0 t0 in
+    match correct s fx u0 with
+    | None => None
+    | Some (obs, upd) =>
+      match cf_calib cf with
+      | CalMLE _ =>
+        (* solver_mle counts the initial update as its first datum *)
+        match rms2 s obs with
+        | None => None
+        | Some new2 =>
+          Some (mkSt t0 upd (apply_updates (init_posterior s u0) upd) (ones s) new2 1 0 [])
+        end
+      | _ =>
+        Some (mkSt t0 upd (apply_updates (init_posterior s u0) upd) (ones s)
+                   (map (fun _ => 0) (seq 0 (sh_blocks s))) 0 0 [])
+      end
+    end.
 End Solver.
